@@ -5,6 +5,7 @@ package main
 
 import (
 	"context"
+	"encoding/json"
 	"fmt"
 	"math/rand"
 	"net/http"
@@ -359,7 +360,15 @@ func (g *gen) breakEnv(e *AEnv) string {
 // ---------- receive paths ----------
 
 // decodeViaTCP hands the bytes to the real TCP transport's Receive over an in-memory connection.
-func decodeViaTCP(b []byte) Res {
+// One long-lived transport receives the envelopes of a run one after the other, as on a real
+// connection (whatever the transport keeps between two Receive calls is part of what is observed);
+// after an error the transport is replaced, since its decoder may be in a permanent error state.
+var tcpPathMu sync.Mutex
+var tcpPathConn *memconn.Conn
+var tcpPathPeer *memconn.Conn
+var tcpPathTransport lime.Transport
+
+func decodeViaTCPFresh(b []byte) Res {
 	c, s := memconn.Pipe(0)
 	t := lime.NewTCPTransportOverConn(s, true, nil)
 	_, _ = c.Write(b)
@@ -372,6 +381,38 @@ func decodeViaTCP(b []byte) Res {
 		v, err := t.Receive(ctx)
 		return resOf(v, err)
 	})
+}
+
+func decodeViaTCP(b []byte) Res {
+	if !json.Valid(b) {
+		// byte-level inputs (truncations, concatenations, garbage) would leave bytes behind for the next case
+		return decodeViaTCPFresh(b)
+	}
+	tcpPathMu.Lock()
+	defer tcpPathMu.Unlock()
+	if tcpPathTransport == nil {
+		tcpPathConn, tcpPathPeer = memconn.Pipe(0)
+		tcpPathTransport = lime.NewTCPTransportOverConn(tcpPathPeer, true, nil)
+	}
+	reset := func() {
+		_ = tcpPathConn.Close()
+		_ = tcpPathPeer.Close()
+		tcpPathTransport = nil
+	}
+	_, _ = tcpPathConn.Write(append(append([]byte(nil), b...), '\n'))
+	ctx, cancel := context.WithTimeout(context.Background(), 2*time.Second)
+	defer cancel()
+	t := tcpPathTransport
+	failed := false
+	r := guard(func() Res {
+		v, err := t.Receive(ctx)
+		failed = err != nil
+		return resOf(v, err)
+	})
+	if failed || r.Tag != "ok" {
+		reset()
+	}
+	return r
 }
 
 // wsPath is a real WebSocket transport (server side) fed by a raw gorilla client.
